@@ -2,8 +2,10 @@ package raft
 
 import (
 	"context"
+	"encoding/binary"
 	"errors"
 	"fmt"
+	"sync"
 	"sync/atomic"
 	"time"
 
@@ -22,6 +24,7 @@ const proposeConfChangeTimeout time.Duration = 5 * time.Second
 var (
 	ProcessFnAlreadyRegisteredErr  error = errors.New("ProcessFn already registered")
 	SnapshotFnAlreadyRegisteredErr error = errors.New("SnapshotFn already registered")
+	ConfChangeNotAppliedErr        error = errors.New("Membership change was not applied in time")
 )
 
 type Group interface {
@@ -47,6 +50,10 @@ type RaftGroup struct {
 	// Closed when the run loop has exited
 	doneC   chan struct{}
 	started bool
+
+	// Membership changes proposed by this node that wait to be applied (by change id)
+	confChangeWaiters   map[uint64]chan struct{}
+	confChangeWaitersMu sync.Mutex
 
 	raft          etcdRaft.Node
 	raftConfState *raftpb.ConfState
@@ -225,6 +232,55 @@ func (this *RaftGroup) ProposeLeave(nodeId uint64) error {
 	return this.raft.ProposeConfChange(ctx, cc)
 }
 
+// Proposes a membership change and waits until this node has applied that very change.
+// Raft replaces a membership change with an empty entry while another one is in
+// progress and a proposal can be lost when the leader changes, the current membership
+// alone therefore does not tell whether the change went through.
+func (this *RaftGroup) ProposeJoinAndWait(nodeId uint64, address string, timeout time.Duration) error {
+	return this.proposeConfChangeAndWait(raftpb.ConfChange{
+		Type:    raftpb.ConfChangeAddNode,
+		NodeID:  nodeId,
+		Context: []byte(address),
+	}, timeout)
+}
+
+func (this *RaftGroup) ProposeLeaveAndWait(nodeId uint64, timeout time.Duration) error {
+	return this.proposeConfChangeAndWait(raftpb.ConfChange{
+		Type:   raftpb.ConfChangeRemoveNode,
+		NodeID: nodeId,
+	}, timeout)
+}
+
+func (this *RaftGroup) proposeConfChangeAndWait(cc raftpb.ConfChange, timeout time.Duration) error {
+	cc.ID = binary.BigEndian.Uint64(uuid.NewV4().Bytes()[:8])
+
+	appliedC := make(chan struct{})
+	this.confChangeWaitersMu.Lock()
+	if this.confChangeWaiters == nil {
+		this.confChangeWaiters = make(map[uint64]chan struct{})
+	}
+	this.confChangeWaiters[cc.ID] = appliedC
+	this.confChangeWaitersMu.Unlock()
+	defer func() {
+		this.confChangeWaitersMu.Lock()
+		delete(this.confChangeWaiters, cc.ID)
+		this.confChangeWaitersMu.Unlock()
+	}()
+
+	ctx, cancelCtx := context.WithTimeout(this.ctx, timeout)
+	defer cancelCtx()
+	if err := this.raft.ProposeConfChange(ctx, cc); err != nil {
+		return err
+	}
+
+	select {
+	case <-appliedC:
+		return nil
+	case <-ctx.Done():
+		return ConfChangeNotAppliedErr
+	}
+}
+
 func (this *RaftGroup) run() {
 	defer close(this.doneC)
 
@@ -322,6 +378,13 @@ func (this *RaftGroup) processConfChange(entry raftpb.Entry) error {
 	}
 
 	this.raftConfState = this.raft.ApplyConfChange(cc)
+
+	this.confChangeWaitersMu.Lock()
+	if appliedC, exists := this.confChangeWaiters[cc.ID]; exists {
+		close(appliedC)
+		delete(this.confChangeWaiters, cc.ID)
+	}
+	this.confChangeWaitersMu.Unlock()
 	return nil
 }
 
